@@ -39,6 +39,9 @@ fn timeout_of(per_request: bool, key: u8) -> u64 {
         UNBOUNDED
     } else if per_request && key == 3 {
         0
+    } else if per_request && key == 4 {
+        // configured as 9.75 ms: tokio's timers fire at the next millisecond boundary
+        10
     } else {
         20
     }
@@ -78,6 +81,9 @@ impl Scenario for Tl {
         let inner = GatedInner::new(w.inner.clone());
         let start: Box<dyn FnMut(Req) -> CallerFut> = if self.per_request {
             fn per_req(r: &Req) -> Duration {
+                if r.key == 4 {
+                    return Duration::from_micros(9750);
+                }
                 dur(timeout_of(true, r.key))
             }
             let f: fn(&Req) -> Duration = per_req;
@@ -111,7 +117,7 @@ impl Scenario for Tl {
     }
     fn arrive_variants(&self, _w: &World, _x: &X, _c: usize) -> Vec<u8> {
         if self.per_request {
-            vec![0, 1, 2, 3]
+            vec![0, 1, 2, 3, 4]
         } else {
             vec![0]
         }
@@ -295,6 +301,15 @@ impl Scenario for Tl {
         w.settle();
         if !self.cancel {
             let g = w.inner.lock().unwrap();
+            // a call that timed out still has its inner call run in the background - even when
+            // the deadline passed before the background task was first scheduled
+            for (c, cl) in w.callers.iter().enumerate() {
+                if let (Phase::Done(Outcome::Layer(_)), Some(r)) = (&cl.phase, &cl.req) {
+                    if !g.calls.iter().any(|k| k.req.id == r.id) {
+                        out.push(Viol::new("background_call_never_started", site, format!("caller {c} (timeout {}ms) timed out and its request never reached the inner service", timeout_of(self.per_request, r.key))));
+                    }
+                }
+            }
             for k in g.calls.iter() {
                 if !matches!(k.status, CallStatus::Ok(_) | CallStatus::Err(_)) {
                     out.push(Viol::new("background_call_not_completed", site, format!("inner call {} (req {}) ended {:?} instead of running to completion", k.k, k.req.id, k.status)));
@@ -345,7 +360,7 @@ fn main() {
         rep.require_witness(w);
     }
     let depth = tier.pick(10, 13);
-    rep.bounds = json!({"depth": depth, "callers": 2, "timeouts_ms": [20, 30], "grid_ms": 10});
+    rep.bounds = json!({"depth": depth, "callers": 2, "timeouts_ms": [20, 30, "Duration::MAX", 0, 9.75], "grid_ms": 10});
     for cfg in configs(tier) {
         let opts = Opts { max_depth: depth, time_cap: Duration::from_secs(tier.pick(30, 600)), ..Opts::default() };
         let ex = svcx::explore(&cfg, &opts, &mut rep);
